@@ -69,16 +69,19 @@ structure Struct where
   fields : List Field := []
   nestedEnums : List Name := []
   nestedStructs : List Name := []
+  /-- generated with enum traits / text methods (`Config.include_enum_traits`) -/
+  traits : Bool := true
 deriving Repr
 
 def units (st : Struct) : String := if st.isBits then "Bits" else "Bytes"
 
-/-- Members every generated view class has (template `structure_view_class`). -/
+/-- Members every generated view class has (template `structure_view_class`); the two text
+methods (template `struct_text_stream`) only when enum traits are generated. -/
 def fixedMembers (st : Struct) : List Name :=
   [s "Ok", s "BackingStorage", s "IsComplete", s ("SizeIn" ++ units st), s "SizeIsKnown", s "Equals",
-   s "UncheckedEquals", s "UncheckedCopyFrom", s "CopyFrom", s "TryToCopyFrom", s "UpdateFromTextStream",
-   s "WriteToTextStream", s "IsAggregate", s "backing_", s "Storage",
-   s "Generic" ++ st.name ++ s "View"] ++
+   s "UncheckedEquals", s "UncheckedCopyFrom", s "CopyFrom", s "TryToCopyFrom", s "IsAggregate", s "backing_",
+   s "Storage", s "Generic" ++ st.name ++ s "View"] ++
+  (if st.traits then [s "UpdateFromTextStream", s "WriteToTextStream"] else []) ++
   (if st.params.isEmpty then [] else [s "parameters_initialized_"])
 
 /-- Declarations in the scope of `class Generic<Name>View`. -/
@@ -101,15 +104,23 @@ def classScope (st : Struct) : List Decl :=
 
 /-- Unqualified references to `namespace <Struct>` from inside the view class: the constant
 virtual fields' `Read()` is defined as `return <Struct>::<field>();` (template
-`structure_single_const_virtual_field_method_definitions`), looked up from inside
-`Generic<Struct>View<Storage>::<VirtualView>`, where the template parameter `Storage` and the
-nested class's `using ValueType = …;` are found first. -/
-def referenceScope (st : Struct) : List Decl :=
-  if st.fields.any (fun f => f.ownView && f.constant) then
-    [{ ident := st.name, what := "own namespace reference" },
-     { ident := s "Storage", what := "captures reference" },
-     { ident := s "ValueType", what := "captures reference" }]
-  else []
+`structure_single_const_virtual_field_method_definitions`) and validators are named
+`<Struct>::EmbossReservedValidatorFor…` inside the class.  Every structure has such a reference
+(`$min_size_in_…` is always a constant).  Qualified-name lookup of `<Struct>::` considers type
+names only and finds, before `namespace <Struct>`:
+* in the view class: the template parameter `Storage` and the `using <Enum> = …;` of the nested
+  enums (`typeRefScope`);
+* in the nested view class of a virtual field: its `using ValueType = …;` (`nestedRefScope`). -/
+def typeRefScope (st : Struct) : List Decl :=
+  [{ ident := st.name, what := "own namespace reference" },
+   { ident := s "Storage", what := "captures reference" }] ++
+  st.nestedEnums.map (fun e => { ident := e, what := "using <enum>" })
+
+def nestedRefScope (st : Struct) : List Decl :=
+  [{ ident := st.name, what := "own namespace reference" },
+   { ident := s "ValueType", what := "captures reference" }]
+
+def referenceScopes (st : Struct) : List (List Decl) := [typeRefScope st, nestedRefScope st]
 
 /-- The `EmbossReserved…` type names a structure's fields give rise to: nested view classes
 of the non-alias virtual fields, validator structs of the fields with `[requires]`. -/
@@ -136,14 +147,18 @@ def enumDecls (n : Name) (traits : Bool) : List Decl :=
      { ident := s "EnumIsKnown", group := some 4, what := "helper" }]
    else [])
 
-/-- A namespace scope: the module's namespace, or `namespace <Struct>` (which also holds the
-validators and the constant-virtual-field functions of that structure). -/
+/-- A namespace scope: a C++ namespace — the namespace of one *or several* modules (modules
+compiled together share a scope when their `(cpp) namespace` is the same), or `namespace
+<Struct>` (which also holds the validators and the constant-virtual-field functions of that
+structure).  `structs`/`enums` list every type any module declares there. -/
 structure Scope where
   structs : List Name := []
   enums : List Name := []
   /-- the structure whose `namespace <Struct>` this is, if any -/
   owner : Option Struct := none
   traits : Bool := true
+  /-- `external` types: the hand-written `<Name>View` template is expected in this namespace -/
+  externals : List Name := []
 deriving Repr
 
 def zipIdx {α : Type} (l : List α) : List (α × Nat) := l.zip (List.range l.length)
@@ -160,7 +175,8 @@ def namespaceScope (sc : Scope) : List Decl :=
          match cppFieldName f.name with
          | some c => [{ ident := c, what := "constant function" }]
          | none => []
-        else [])))
+        else []))) ++
+  sc.externals.map (fun e => { ident := e ++ s "View", what := "external view" })
 
 def compatible (a b : Decl) : Bool :=
   a.ident != b.ident || (match a.group, b.group with
